@@ -357,10 +357,177 @@ def coq_terms(m):
         rec = struct.unpack_from('QQQQIII', buf, 4 + i * struct.calcsize('QQQQIII'))
         masks.append((rec[6], rec[3]))
     t['ring_masks'] = masks
+    # _fragments: the enumeration order of the chain set as this process sees it, and the dict it builds (order included)
+    ch = list(m._chains(1, 3))
+    t['chains_enum'] = [list(c) for c in ch]
+    t['identifiers'] = [(k, v) for k, v in m._atom_identifiers.items()]
+    t['fragments'] = [(list(k), [list(c) for c in v]) for k, v in m._fragments(1, 3).items()]
+    t['linear_hash_set_13'] = sorted(m.linear_hash_set(1, 3, 2))
     # the weight groups of _smiles: weights = _chiral_morgan
     w = m._chiral_morgan
     t['weights'] = [(k, v) for k, v in w.items()]
     return t
+
+
+# ---- insertion histories and pickles (extension round, goal 3) ----------------------------------------------------
+
+def reordered(m, rng, inner):
+    """the same molecule object state with other dict orders: a copy whose atom dict (and, with `inner`, every neighbour dict) is
+    re-inserted in a shuffled order - what another sequence of add_atom / add_bond calls would have left behind, with every atom
+    and bond attribute kept.  Stored stereo signs are relative to the neighbour order, so molecules with labels keep it."""
+    c = m.copy()
+    ks = list(c._atoms)
+    rng.shuffle(ks)
+    c._atoms = {n: c._atoms[n] for n in ks}
+    nb = {}
+    for n in ks:
+        ms = list(c._bonds[n])
+        if inner:
+            rng.shuffle(ms)
+        nb[n] = {k: c._bonds[n][k] for k in ms}
+    c._bonds = nb
+    c.flush_cache()
+    return c
+
+
+def hist_obs(x, env, ordered):
+    """observables of one history variant; `ordered`: the variant has the dict orders of the original, so everything that
+    follows insertion order must coincide too, otherwise only what is a function of the structure"""
+    import pickle
+    o = {}
+    o['str'] = safe(lambda: str(x))
+    o['sorted sets'] = safe(lambda: (sorted(x.linear_hash_set()), sorted(x.morgan_hash_set()), sorted(x.atoms_order.items()), sorted(sorted(c) for c in x.connected_components),
+                                    x.rings_count, sorted(len(r) for r in x.sssr), sorted(x.brutto.items()) if all(a.implicit_hydrogens is not None for _, a in x.atoms()) else None))
+    o['unpack(pack) str'] = safe(lambda: str(env['MoleculeContainer'].unpack(x.pack())))
+    # which of several equivalent embeddings onto the same atoms is reported first follows the neighbour order (by design of the
+    # automorphism filter): the matched ATOM SETS are the structure function
+    o['matched atom sets'] = safe(lambda: [sorted({tuple(sorted(mp.values())) for mp in itertools.islice(q.get_mapping(x), 400)}) for _, q in env['queries'][:8] if q is not None])
+    if ordered:
+        o['pack'] = safe(lambda: x.pack())
+        o['pack(compressed=False)'] = safe(lambda: x.pack(compressed=False))
+        o['orders'] = safe(lambda: (x.smiles_atoms_order, x.atoms_order, x.sssr, x.connected_components, list(x._atoms), bonds_dump(x)))
+        for sma, q in env['queries'][:6]:
+            if q is not None:
+                o['match:' + sma] = safe(lambda q=q: list(itertools.islice(q.get_mapping(x), 60)))
+    return o
+
+
+def history_variants(tag, smi, env, pkdir, intra):
+    """one molecule reached through different insertion histories: copy, an atom added and deleted again, unpack(pack), renumbered
+    forth and back, pickled and unpickled (same dict orders: EVERYTHING must coincide with the parsed molecule, pack bytes
+    included); rebuilt by add_atom/add_bond in the original and in a shuffled order (other dict orders: everything that is a
+    function of the structure must coincide).  Pickles are written for the cross-process loaders."""
+    import pickle
+    from chython import smiles
+    MC = env['MoleculeContainer']
+    rng = random.Random('hist:' + tag)
+    out = {}
+    m = smiles(smi)
+    try:
+        fresh_pickle = pickle.dumps(m)                    # before anything is cached
+    except Exception as e:
+        fresh_pickle = None
+        out['pickle:fresh'] = f'EXC:{type(e).__name__}'
+    V = {}
+    V['copy'] = (lambda: m.copy(), True)
+
+    def dummy():
+        c = m.copy()
+        k = c.add_atom('C')
+        c.add_bond(k, next(iter(c._atoms)), 1)
+        c.delete_atom(k)
+        return c
+    V['atom added and deleted'] = (dummy, True)
+    V['unpack(pack)'] = (lambda: MC.unpack(m.pack()), True)
+
+    def remapped():
+        c = m.copy()
+        ks = list(c._atoms)
+        c.remap({k: k + 1000 for k in ks})
+        c.remap({k + 1000: k for k in ks})
+        return c
+    V['renumbered forth and back'] = (remapped, True)
+    if fresh_pickle is not None:
+        V['pickle.loads(pickle.dumps)'] = (lambda: pickle.loads(fresh_pickle), True)
+    has_stereo = any(a.stereo is not None for _, a in m.atoms()) or any(b.stereo is not None for *_, b in m.bonds())
+    V['atom dict re-inserted in shuffled order'] = (lambda: reordered(m, rng, False), False)
+    if not has_stereo:
+        V['atom and neighbour dicts re-inserted in shuffled order'] = (lambda: reordered(m, rng, True), False)
+    base = hist_obs(smiles(smi), env, True)
+    for k, v in base.items():
+        out['parsed:' + k] = v
+    for name, (make, ordered) in V.items():
+        try:
+            x = make()
+        except Exception as e:
+            out[name] = f'EXC:{type(e).__name__}'
+            continue
+        o = hist_obs(x, env, ordered)
+        for k, v in o.items():
+            out[f'{name}:{k}'] = v
+            if base.get(k) != v:
+                intra.append({'input': tag, 'observable': f'history:{k.split(":")[0]}', 'variant': 'history: ' + name, 'first': base.get(k, '')[:600], 'other': v[:600]})
+    # pickles: idempotent, and written for the loaders of ANOTHER process / hash seed
+    if fresh_pickle is not None:
+        out['pickle:fresh'] = 'b:' + hashlib.blake2b(fresh_pickle, digest_size=8).hexdigest() + f':{len(fresh_pickle)}'
+        # informational: a set of ints can change its iteration order through a pickle round trip (it is re-inserted in pickled
+        # order), so dumps(loads(b)) == b is NOT required; what the reloaded molecule ANSWERS is compared above
+        out['pickle:fresh is a fixed point of loads/dumps'] = ser(pickle.dumps(pickle.loads(fresh_pickle)) == fresh_pickle)
+        warm = smiles(smi)
+        for a in ('atoms_order', 'sssr', 'atoms_rings_sizes', 'connected_components', 'rings_count', '_chiral_morgan', 'not_special_connectivity'):
+            try:
+                getattr(warm, a)
+            except Exception:
+                pass
+        try:
+            warm_pickle = pickle.dumps(warm)
+            out['pickle:warm cached_property cache'] = 'b:' + hashlib.blake2b(warm_pickle, digest_size=8).hexdigest() + f':{len(warm_pickle)}'
+        except Exception as e:
+            warm_pickle = None
+            out['pickle:warm cached_property cache'] = f'EXC:{type(e).__name__}'
+        hot = smiles(smi)
+        str(hot), hash(hot)
+        out['pickle:after str() and hash()'] = safe(lambda: len(pickle.dumps(hot)))     # CachedMethods 0.2 keeps a lock in __dict__: TypeError
+        os.makedirs(pkdir, exist_ok=True)
+        n = len(os.listdir(pkdir))
+        with open(os.path.join(pkdir, f'{n}.pkl'), 'wb') as f:
+            pickle.dump({'tag': tag, 'smiles': smi, 'fresh': fresh_pickle, 'warm': warm_pickle}, f)
+    return out
+
+
+def loader(spec_path, pkdir, out_path):
+    """second phase: THIS process (its own hash seed) loads the pickles another process wrote under another seed"""
+    import pickle
+    spec = json.load(open(spec_path))
+    import boot  # noqa
+    cython, notes = inject_pyx(spec['repo'])
+    from chython import smiles, MoleculeContainer
+    problems, obs = [], {}
+    files = sorted(os.listdir(pkdir), key=lambda x: int(x.split('.')[0])) if os.path.isdir(pkdir) else []
+    for fn in files:
+        rec = pickle.load(open(os.path.join(pkdir, fn), 'rb'))
+        tag, smi = rec['tag'], rec['smiles']
+        fresh = smiles(smi)
+        o = {}
+        for kind in ('fresh', 'warm'):
+            if rec[kind] is None:
+                continue
+            try:
+                x = pickle.loads(rec[kind])
+            except Exception as e:
+                problems.append({'input': tag, 'what': f'{kind} pickle of another process does not load: {type(e).__name__}'})
+                continue
+            facts = {'== freshly parsed': x == fresh, 'hash == hash(freshly parsed)': hash(x) == hash(fresh), 'in {freshly parsed}': x in {fresh},
+                     'freshly parsed in {loaded}': fresh in {x}, 'str equal': str(x) == str(fresh), 'pack bytes equal': x.pack() == fresh.pack(),
+                     'atoms_order equal': x.atoms_order == fresh.atoms_order, 'sssr equal': x.sssr == fresh.sssr,
+                     'smiles_atoms_order equal': x.smiles_atoms_order == fresh.smiles_atoms_order,
+                     'connected_components equal': x.connected_components == fresh.connected_components}
+            bad = [k for k, v in facts.items() if not v]
+            if bad:
+                problems.append({'input': tag, 'what': f'{kind} pickle written under another hash seed, loaded here: ' + ', '.join(bad)})
+            o[kind] = ser((str(x), x.smiles_atoms_order, x.sssr, sorted(x.linear_hash_set())))
+        obs[tag] = o
+    json.dump({'problems': problems, 'obs': obs, 'loaded': len(files), 'hashseed': os.environ.get('PYTHONHASHSEED')}, open(out_path, 'w'))
 
 
 def compare_variants(tag, base, other, name_b, intra):
@@ -421,6 +588,11 @@ def worker(spec_path, out_path):
             compare_variants(tag, first, observe_reads(parse(), env), 're-parsed object', intra)
         first.update(ops)
         obs[tag] = first
+        if tag in spec.get('history_inputs', ()):
+            try:
+                obs['hist|' + tag] = history_variants(tag, smi, env, out_path + '.pk', intra)
+            except Exception as e:
+                obs['hist|' + tag] = {'error': f'EXC:{type(e).__name__}:{str(e)[:100]}'}
         if tag in spec['model_inputs']:
             try:
                 terms[tag] = coq_terms(m)
@@ -478,6 +650,9 @@ if __name__ == '__main__':
     if len(sys.argv) == 4 and sys.argv[1] == '--worker':
         worker(sys.argv[2], sys.argv[3])
         sys.exit(0)
+    if len(sys.argv) == 5 and sys.argv[1] == '--loader':
+        loader(sys.argv[2], sys.argv[3], sys.argv[4])
+        sys.exit(0)
     sys.exit('usage: C19.py --worker spec.json out.json')
 
 
@@ -501,6 +676,18 @@ for seed in {seeds!r}:
     outs.append(p.stdout.strip() or p.stderr.strip()[-300:])
     print('PYTHONHASHSEED=%s ->' % seed, outs[-1])
 print('IDENTICAL' if len(set(outs)) == 1 else 'DIFFERENT')
+'''
+
+
+REPLAY_PICKLE = '''import subprocess, sys, os, tempfile
+smi = {smi!r}
+path = os.path.join(tempfile.mkdtemp(), 'm.pkl')
+w = "import boot, pickle; from chython import smiles; pickle.dump(smiles(%r), open(%r, 'wb'))" % (smi, path)
+r = ("import boot, pickle; from chython import smiles; x = pickle.load(open(%r, 'rb')); f = smiles(%r); "
+     "print(x == f, hash(x) == hash(f), x in {{f}}, str(x) == str(f), x.atoms_order == f.atoms_order, x.sssr == f.sssr)") % (path, smi)
+subprocess.run([sys.executable, '-c', w], env=dict(os.environ, PYTHONHASHSEED='{a}'), check=True)
+p = subprocess.run([sys.executable, '-c', r], env=dict(os.environ, PYTHONHASHSEED='{b}'), capture_output=True, text=True)
+print('written under {a}, loaded under {b}:', p.stdout.strip() or p.stderr[-300:])
 '''
 
 
@@ -558,7 +745,8 @@ def build_spec(ck):
     model_inputs = [t for t, s in mols if t.startswith('hand:')][:44] + [t for t, s in mols if t.startswith('corpus:') and len(s) < 40][: (12 if quick else 120)]
     test_dir = os.path.join(common.REPO, 'test')
     sdf = sorted(os.path.join(test_dir, f) for f in os.listdir(test_dir) if f.endswith('.sdf'))[: (3 if quick else 8)] if os.path.isdir(test_dir) else []
-    return {'repo': common.REPO, 'molecules': mols, 'reactions': [('rxn:' + s, s) for s in REACTIONS], 'smarts': SMARTS,
+    history_inputs = [tg for tg, s in mols if tg.startswith('hand:')][::2][: (34 if quick else 80)] + [tg for tg, s in mols if tg.startswith('corpus:')][: (4 if quick else 80)]
+    return {'repo': common.REPO, 'history_inputs': history_inputs, 'molecules': mols, 'reactions': [('rxn:' + s, s) for s in REACTIONS], 'smarts': SMARTS,
             'fragments': FRAGMENTS, 'reactor': REACTOR, 'model_inputs': model_inputs, 'sdf': sdf, 'sdf_limit': 10 if quick else 40, 'reparse': True}
 
 
@@ -605,8 +793,34 @@ def run_workers(ck, spec, seeds):
                 results.append((i, seed, None, 'TIMEOUT'))
                 running.remove(r)
         time.sleep(0.2)
-    shutil.rmtree(tmp, ignore_errors=True)
     results.sort()
+    # phase 2: every process position loads, under ITS seed, the pickles written by the next process (another seed)
+    if spec.get('history_inputs') and len(results) > 1:
+        loaders = []
+        n = len(results)
+        for pos, (i, seed, res, log) in enumerate(results):
+            if res is None:
+                continue
+            src = os.path.join(tmp, f'out{results[(pos + 1) % n][0]}.json.pk')
+            out = os.path.join(tmp, f'load{i}.json')
+            env = dict(env_base, PYTHONHASHSEED=str(seed))
+            logf = open(os.path.join(tmp, f'loadlog{i}.txt'), 'w')
+            pr = subprocess.Popen(['/venv/bin/python', '-u', worker_py, '--loader', spec_path, src, out], env=env, stdout=logf, stderr=subprocess.STDOUT)
+            logf.close()
+            loaders.append((pos, i, pr, out, results[(pos + 1) % n][1]))
+        for pos, i, pr, out, src_seed in loaders:
+            try:
+                pr.wait(timeout=600)
+            except subprocess.TimeoutExpired:
+                pr.kill()
+            lres = None
+            if pr.returncode == 0 and os.path.exists(out):
+                lres = json.load(open(out))
+                lres['written_under_seed'] = src_seed
+            else:
+                lres = {'error': open(os.path.join(tmp, f'loadlog{i}.txt'), errors='replace').read()[-2000:], 'written_under_seed': src_seed}
+            results[pos][2]['loader'] = lres
+    shutil.rmtree(tmp, ignore_errors=True)
     return results
 
 
@@ -647,6 +861,7 @@ def differential(ck, spec, results, label=''):
     families = {}
     for tag, ob in base['obs'].items():
         kind = 'reaction' if tag.startswith('rxn:') else 'sdf' if tag.startswith(('sdf:', 'reactor:')) else 'molecule'
+        tag_in = tag[5:] if tag.startswith('hist|') else tag
         nontrivial = not (len(ob) == 1 and 'parse' in ob)
         ck.count('inputs:' + tag.split(':')[0])
         for name, text in ob.items():
@@ -660,7 +875,7 @@ def differential(ck, spec, results, label=''):
                 n_cmp += 1
                 if other != text:
                     n_diff += 1
-                    smi = smi_of.get(tag, tag)
+                    smi = smi_of.get(tag_in, tag_in)
                     code = obs_code(kind, smi, name)
                     same_seed = str(seed) == str(base_seed)
                     what = (f'{name} of {smi!r} differs between ' +
@@ -670,6 +885,33 @@ def differential(ck, spec, results, label=''):
                                       (other or 'missing')[:1500], text[:1500], 'the same computation in another interpreter process / hash seed',
                                       replay_py=REPLAY_TMPL.format(code=code, seeds=[base_seed, seed]))
                     break
+    # cross-process pickles
+    n_loaded = 0
+    for i, seed, res in good:
+        l = res.get('loader')
+        if l is None:
+            continue
+        ok = 'error' not in l
+        ck.oblige(f'{label}loader under PYTHONHASHSEED={seed} read the pickles written under PYTHONHASHSEED={l.get("written_under_seed")}', ok, 'machinery', l.get('error', ''))
+        if not ok:
+            ck.unchecked('pickle loader process failed', l.get('error', ''))
+            continue
+        n_loaded += l['loaded']
+        for pb in l['problems']:
+            smi = smi_of.get(pb['input'], pb['input'])
+            ck.counterexample('pickle-across-processes', f'{smi!r}: {pb["what"]}', {'input': smi, 'written_under_seed': l['written_under_seed'], 'loaded_under_seed': seed},
+                              pb['what'], 'the loaded molecule equals (==, hash, set membership, str, pack bytes, orders) the one parsed in the loading process',
+                              'a freshly parsed molecule in the loading process',
+                              replay_py=REPLAY_PICKLE.format(smi=smi, a=l['written_under_seed'], b=seed))
+    if n_loaded:
+        ck.extra['pickles_loaded_across_processes'] = n_loaded
+        base_l = good[0][2].get('loader', {}).get('obs')
+        for i, seed, res in good[1:]:
+            lo = res.get('loader', {}).get('obs')
+            if base_l is not None and lo is not None and lo != base_l:
+                bad = [k for k in base_l if lo.get(k) != base_l[k]][:3]
+                ck.counterexample('pickle-across-processes:observables', f'molecules loaded from pickles answer differently in two loading processes: {bad}',
+                                  {'inputs': bad}, str([lo.get(k) for k in bad])[:1000], str([base_l[k] for k in bad])[:1000], 'another loading process')
     # inside one process: cached / flushed / copy / re-parsed
     n_intra = 0
     for i, seed, res in good:
@@ -705,6 +947,20 @@ Definition mh_ok (g : mol) (e : list Z) : bool :=
   pyres_eqb (list_eqb Z.eqb) (match Fingerprint.morgan_hash_list hash_ztuple g 1 3 with Ok l => Ok (Fingerprint.set_z l) | Err x => Err x end) (Ok e).
 Definition rm_ok (enum : list Z) (mask : Z) : bool := (ring_mask enum =? mask) && (ring_mask (rev enum) =? mask).
 Definition zz_eqb := list_eqb (fun a b : Z * Z => (fst a =? fst b) && (snd a =? snd b)).
+(* _fragments: the model run on the enumeration this process saw reproduces the dict INCLUDING its order; run on the reverse
+   enumeration it gives the same dict up to key order and order inside the lists; linear_hash_set from both *)
+Definition zll_eqb := list_eqb (list_eqb Z.eqb).
+Definition frd_eqb := list_eqb (fun a b : list Z * list (list Z) => list_eqb Z.eqb (fst a) (fst b) && zll_eqb (snd a) (snd b)).
+Definition ll_leb (a b : list Z) : bool := negb (zlist_ltb b a).
+Definition canon_frd (d : list (list Z * list (list Z))) :=
+  sort_leb (fun a b => ll_leb (fst a) (fst b)) (map (fun kv => (fst kv, sort_leb ll_leb (snd kv))) d).
+Definition fr_ok (g : mol) (ids : list (Z * Z)) (enum : list (list Z)) (expect : list (list Z * list (list Z))) (hs : list Z) : bool :=
+  let idf := Fingerprint.ident ids in let ord := Fingerprint.bond_order g in
+  let h := fun (k : list Z) (c : Z) => hash_ztuple (k ++ [c]) in
+  frd_eqb (fragments_of idf ord enum) expect &&
+  frd_eqb (canon_frd (fragments_of idf ord (rev enum))) (canon_frd expect) &&
+  list_eqb Z.eqb (frag_hash_set zlist_eqb (frag_key idf ord) (frag_val idf ord) h 2 enum) hs &&
+  list_eqb Z.eqb (frag_hash_set zlist_eqb (frag_key idf ord) (frag_val idf ord) h 2 (rev enum)) hs.
 (* weight groups of _smiles: the table computed over the enumeration and over its reverse give the observed counts *)
 Definition gs_ok (ws : list (Z * Z)) (enum : list Z) (expect : list (Z * Z)) : bool :=
   let w := fun n => match zget ws n with Some v => v | None => 0 end in
@@ -807,6 +1063,12 @@ def correspondence(ck, spec, results):
             for n, enum in t['ring_sizes'][:6]:
                 cases.append(f'rm_ok {enum} {zraw(masks[n])}')
                 meta.append((tag, f'ring mask of atom {n}', seed))
+            if len(t.get('chains_enum', [])) <= 260:
+                zl = lambda xs: lst(list(xs), zraw)
+                cases.append('fr_ok %s %s %s %s %s' % (
+                    g, lst([tup(zraw(k), zraw(v)) for k, v in t['identifiers']]), lst([zl(c) for c in t['chains_enum']]),
+                    lst([tup(zl(k), lst([zl(c) for c in v])) for k, v in t['fragments']]), zl(t['linear_hash_set_13'])))
+                meta.append((tag, '_fragments dict (order included) and linear_hash_set from the observed and the reversed enumeration', seed))
             ws = t['weights']
             if ws and all(0 <= v < 100000 for _, v in ws):
                 groups = {}
@@ -829,7 +1091,7 @@ def correspondence(ck, spec, results):
     ck.extra['correspondence_cases'] = len(cases) + len(mc)
     good1 = ok1 and not failing1
     good2 = ok2 and not failing2
-    ck.oblige(f'correspondence: atoms_order / linear_hash_set / morgan_hash_set / ring-size masks / weight groups / start atom of every worker '
+    ck.oblige(f'correspondence: atoms_order / linear_hash_set / morgan_hash_set / _fragments dict / ring-size masks / weight groups / start atom of every worker '
               f'process == the one seed-free Coq model ({len(cases)} cases)', good1, 'correspondence', log1 or repr([meta[i] for i in failing1[:6]]))
     ck.oblige(f'correspondence: cached reads on real molecules over random histories of reads / flush_cache / edits == memo model and == '
               f'uncached evaluation ({len(mc)} histories)', good2, 'correspondence', log2 or repr([mm[i] for i in failing2[:4]]))
@@ -871,16 +1133,24 @@ def audit_report(ck):
     txt = open(os.path.join(common.COQ, 'model', 'Determinism.v')).read()
     consts = dict(re.findall(r'Definition (f_\w+) := "([^"]+)"\.', txt))
     allowed = set()
-    for f, q, t in re.findall(r'\(\((f_\w+), "((?:[^"]|"")*)", "((?:[^"]|"")*)"\)', txt):
-        allowed.add((consts.get(f, f), q.replace('""', '"'), t.replace('""', '"')))
+    for f, q, t in re.findall(r'\(\((f_\w+|"[^"]+"), "((?:[^"]|"")*)", "((?:[^"]|"")*)"\)', txt):
+        allowed.add((consts.get(f, f.strip('"')), q.replace('""', '"'), t.replace('""', '"')))
     body = common.strip_comments(txt[txt.index('Definition allow_list'):txt.index('Definition known_lemmas')])
+    body_full = body
     body = re.sub(r'"(?:[^"]|"")*"', '""', body)          # reasons are counted outside string literals
-    reasons = {r: len(re.findall(r'\b' + r + r'\b', body)) for r in ('OrderFree', 'KeyedTieBreak', 'IntHistory', 'HashOfInts', 'HashOfStr', 'StrSet')}
+    reasons = {r: len(re.findall(r'\b' + r + r'\b', body)) for r in ('OrderFree', 'OrderFreeUpTo', 'OtherProperty', 'FalsePositive', 'KeyedTieBreak', 'IntHistory', 'HashOfInts', 'HashOfStr', 'StrSet')}
+    # a reason that points at a theorem of another property: that theorem must exist in its props file
+    for thm in re.findall(r'OtherProperty\s+"([^"]+)"', body_full):
+        pf = os.path.join(common.COQ, 'props', thm.split('_')[0] + '.v')
+        ok = os.path.exists(pf) and re.search(r'^\s*Theorem\s+' + re.escape(thm) + r'\b', open(pf).read(), re.M) is not None
+        ck.oblige(f'audit reason OtherProperty "{thm}": the theorem exists in props/{thm.split("_")[0]}.v', ok, 'audit', pf)
+        if not ok:
+            ck.unchecked(f'audit reason names the theorem {thm}, which is no longer in {pf}', pf)
     cur = set(sites)
     new = sorted(cur - allowed)
     gone = sorted(allowed - cur)
     ck.extra['audit'] = {'sites': len(sites), 'files': gen_setaudit.FILES, 'new_sites': new, 'vanished_sites': gone, 'reasons': reasons,
-                         'sites_whose_reason_is_a_theorem': reasons['OrderFree'] + reasons['HashOfInts'],
+                         'sites_whose_reason_is_a_theorem': reasons['OrderFree'] + reasons['OrderFreeUpTo'] + reasons['OtherProperty'] + reasons['HashOfInts'],
                          'by_kind': {k: sum(1 for s in sites if s[2].startswith(k + ' ')) for k in ('for', 'call', 'pop', 'unpack', 'star', 'hash')}}
     ck.oblige('audit (Python view): every set-order / hash() site of the current source is allow-listed and no entry is stale',
               not new and not gone, 'translator', f'new: {new}\nvanished: {gone}')
